@@ -24,7 +24,7 @@ class C11(Prop):
     compare_run = True
     property_obs = ("crash",)
     rule = ("the harness, built with the Go race detector, runs (a) N in {2,8,32} goroutines calling Run on ONE prepared evaluator with "
-            "different objects: the multiset of (object, verdict) must equal the sequential run; (b) a counter script on a shared evaluator: "
+            "different objects - also with the script inside a slow host function while the others call Run - : the multiset of (object, verdict) must equal the sequential run; (b) a counter script on a shared evaluator: "
             "after N x K runs the persistent variable equals N x K; (c) M goroutines each preparing and running their OWN evaluators with "
             "scripts using fields, variables, regexps (~=, match, replace, switch cases; also patterns never compiled before in the "
             "process, so that compilation caches are written concurrently) and built-ins: equal scripts must see equal results; any race report or fatal error is a violation. non-trivial = workload with at least 2 goroutines")
@@ -50,6 +50,9 @@ class C11(Prop):
                 specs.append({"kind": "separate", "scripts": FRESH, "objs": objs, "goroutines": max(n, len(FRESH) * 2), "rounds": 4})
                 for s in SCRIPTS:
                     specs.append({"kind": "shared", "script": s, "objs": objs, "goroutines": n, "rounds": 20})
+                # the script is inside a host function (which takes its time) while the other goroutines call Run
+                for hs in ["x = pause(Count); foreach t in Tags { y = pause(t); } return x > 3;", "function f(a) { local q; q = pause(a); return q; } return f(Name) == Name && pause(true);"]:
+                    specs.append({"kind": "shared-host", "script": hs, "objs": objs, "goroutines": n, "rounds": 10})
                 specs.append({"kind": "counter", "script": "if (n) { n = n + 1; } else { n = 1; } return true;", "objs": objs, "goroutines": n, "rounds": 50})
                 specs.append({"kind": "counter", "script": "if (n) { n++; } else { n = 1; } foreach x in Tags { y = x; } return n > 0;", "objs": objs, "goroutines": n, "rounds": 50})
                 specs.append({"kind": "separate", "scripts": SCRIPTS, "objs": objs, "goroutines": max(n, len(SCRIPTS) * 2), "rounds": 4})
@@ -72,7 +75,7 @@ class C11(Prop):
             elif not r.get("ok"):
                 if s["kind"] == "counter":
                     viol.append((None, "lost update: %d goroutines x %d runs of the counter script left n = %s (expected %s)" % (s["goroutines"], s["rounds"], r.get("counter"), r.get("expected"))))
-                elif s["kind"] == "shared":
+                elif s["kind"] in ("shared", "shared-host"):
                     viol.append((None, "concurrent Run calls on one evaluator gave verdicts no sequential order gives: script %r, %d goroutines" % (s["script"], s["goroutines"])))
                 else:
                     viol.append((None, "goroutines running the same script on their own evaluators saw different results"))
